@@ -23,7 +23,7 @@ ASSUMPTIONS = ['whether shutdown() itself raises is not asserted, only that ever
                'repeat start means start() on the same Deep instance']
 EXHAUSTIVE = ['pre-existing sys hook x pre-existing threading hook x NO_TRACE x op sequence (24 lifecycles, no fault)']
 REQUIRE = {'lifecycles': 80, 'hook_observations': 180, 'faulted_shutdowns': 40, 'post_shutdown_probes': 60,
-           'no_trace_lifecycles': 10, 'plugin_shutdown_faults': 15}
+           'no_trace_lifecycles': 10, 'tracing_disabled_between_two_starts': 2, 'plugin_shutdown_faults': 15}
 SHARD_TIMEOUT = {'quick': 400, 'thorough': 2400}
 SEQS = [['start', 'shutdown'], ['start', 'start', 'shutdown'], ['start', 'shutdown', 'shutdown']]
 # 'swap_live': the application changes its own hooks while an agent with tracing disabled is running
@@ -42,6 +42,9 @@ def plan(tier, seed):
                                  'faults': [], 'nplug': 1})
     for i in range(0, len(base), 3):
         specs.append({'kind': 'fixed', 'cases': base[i:i + 3]})
+    specs.append({'kind': 'fixed', 'cases': [
+        {'pre_sys': ps, 'pre_thr': ps, 'no_trace': False, 'ops': ['start', 'shutdown', 'disable', 'start', 'shutdown'],
+         'faults': [], 'nplug': 1} for ps in (False, True)]})
     n = {'quick': 72, 'thorough': 1200}[tier]
     specs += split_seeds('f%s' % seed, n, 12 if tier == 'quick' else 16, 'faulted')
     return specs
@@ -89,11 +92,16 @@ def judge(case, res, out, replay):
     obs = res['obs']
     pre = obs[0]['hooks']
     started_once = False
+    disabled = False
     for o in obs[1:]:
         out.count('hook_observations')
         op = o['op']
         if op == 'swap':
             pre = o['hooks']      # the application changed its own hooks while the agent was shut down
+            continue
+        if op == 'disable':
+            disabled = True
+            out.count('tracing_disabled_between_two_starts')
             continue
         if op == 'hits-during-shutdown':
             out.count('lifecycles_with_hits_during_shutdown')
@@ -106,7 +114,7 @@ def judge(case, res, out, replay):
                                                                        o['never_sent'], o['collected']), witness, replay)
                 return False
             continue
-        if case['no_trace']:
+        if case['no_trace'] or (disabled and op.startswith('start')):
             if o['hooks'] != pre:
                 out.violation('hooks:changed-under-no-trace', 'after %s (tracing disabled) the hooks are %s, before '
                                                               'start they were %s' % (op, o['hooks'], pre), witness, replay)
@@ -275,6 +283,8 @@ def child_lifecycle(case):
     import deep
     from vf.targets import e2e_target
     cfg = srv.config({'PLUGINS': names, 'POLL_TIMER': 0.1, 'NO_TRACE': case['no_trace']})
+    if 'disable' in case['ops']:
+        del cfg['NO_TRACE']     # the setting is left to the environment, which changes between the two starts
     obs = [{'op': 'before', 'hooks': hooks()}]
     agent = None
     accepted = [0]
@@ -317,6 +327,12 @@ def child_lifecycle(case):
                 sys.settrace(pre_sys2 if case['pre_thr'] else None)
                 threading.settrace(pre_thr2 if case['pre_sys'] else None)
                 obs.append({'op': 'swap', 'hooks': hooks()})
+                continue
+            if op == 'disable':
+                # tracing is switched off (DEEP_NO_TRACE) while the agent is shut down: the next start leaves the hooks alone
+                import os
+                os.environ['DEEP_NO_TRACE'] = '1'
+                obs.append({'op': 'disable', 'hooks': hooks()})
                 continue
             if op == 'start':
                 nstart += 1
